@@ -110,11 +110,15 @@ func replay(b *behaviour, e *env, variant int) (key, detail string, at int, obs 
 	dst := lsys.NewStore()
 	var mu sync.Mutex
 	var reported []int
-	failBlock := 0
+	failBlock, cancelBlock := 0, 0
+	var cancelCur context.CancelFunc
 	hook := func(_ peer.ID, bc cid.Cid, actions dagsync.SegmentSyncActions) {
 		mu.Lock()
 		reported = append(reported, num(ch, bc))
 		fb := failBlock
+		if cancelBlock != 0 && num(ch, bc) == cancelBlock && cancelCur != nil {
+			cancelCur() // the hook cancels the caller's context
+		}
 		mu.Unlock()
 		if fb != 0 && num(ch, bc) == fb {
 			actions.FailSync(errors.New("injected hook failure"))
@@ -148,11 +152,11 @@ func replay(b *behaviour, e *env, variant int) (key, detail string, at int, obs 
 	}
 	for i := range b.Syncs {
 		want := &b.Syncs[i]
-		mu.Lock()
-		reported, failBlock = nil, 0
-		mu.Unlock()
 		e.proxy.Reset()
 		ctx, cancel := context.WithTimeout(context.Background(), 10*time.Second)
+		mu.Lock()
+		reported, failBlock, cancelBlock, cancelCur = nil, 0, 0, cancel
+		mu.Unlock()
 		var f *fault
 		if i < len(b.Cfg.Faults) {
 			f = &b.Cfg.Faults[i]
@@ -171,12 +175,16 @@ func replay(b *behaviour, e *env, variant int) (key, detail string, at int, obs 
 			default:
 				return nil
 			}
-			if kind == "hookfail" {
-				// the hook of the block requested now will fail the sync
+			if kind == "hookfail" || kind == "hookcancel" {
+				// the hook of the block requested now will fail the sync / cancel the caller's context
 				for k := 1; k <= n; k++ {
 					if len(path) > 10 && path[len(path)-len(ch.Cids[k].String()):] == ch.Cids[k].String() {
 						mu.Lock()
-						failBlock = k
+						if kind == "hookfail" {
+							failBlock = k
+						} else {
+							cancelBlock = k
+						}
 						mu.Unlock()
 					}
 				}
